@@ -684,7 +684,10 @@ def ctrl6(ctx) -> List[Ob]:
             between = [z for z in cfg.reachable(d) if is_mut(z) and cn in cfg.reachable(z)]
             if between:
                 stale.append(f"computed at line {d.lineno}, graph changed at line {between[0].lineno}")
-        if stale:
+        if stale and kind == "head":
+            # the head chain ends at the branching block; tail / fill / head insertions happen behind it
+            out.append(ok("CTRL-6", rb.qualname, key, where, f"head set computed before a later insertion ({stale[0]}): the chain from the graph's head to the branching block is not touched by insertions behind that block"))
+        elif stale:
             out.append(bad("CTRL-6", rb.qualname, key, where, f"the block set of the {kind} region is stale: {stale[0]} before the extraction", stale))
         else:
             out.append(ok("CTRL-6", rb.qualname, key, where, f"set computed (line(s) {sorted(d.lineno for d in roots)}) after the last graph mutation"))
